@@ -171,6 +171,7 @@ def check_case(ctx, case, collected=None):
     finally:
         c06.AREPR = None
     closure_history(ctx, case, built, fail)
+    limits_history(ctx, case, built, fail)
     # non-triviality
     ar = c06.AREPR or make_arepr(case.get("limits")) or __import__("icontract")._globals.aRepr
     exceeds = any(("..." in v) for _, v in parsed["entries"] if isinstance(v, str))
@@ -215,6 +216,35 @@ def closure_history(ctx, case, built, fail):
     if view(second) != view(fresh):
         fail("(2)message-depends-on-history", "after the closure variables %s were re-bound the message is\n%s\n--- a fresh "
              "function whose closure had these values from the start gives ---\n%s" % (sorted(used), view(second), view(fresh)))
+
+
+def limits_history(ctx, case, built, fail):
+    """'rendered through the contract's own a_repr': the limits of the Repr object handed to the decorator are changed
+    AFTER the contract was created (and violated once); the next message must be the one of a fresh module whose Repr had
+    those limits from the start."""
+    if not case.get("limits"):
+        return
+    role = case.get("role", "require")
+    order = list(case["perm"]) + [n for n in list(GR.ARGS) + ["Y"] if n not in case["perm"]]
+    new_limits = {k: (3 if v > 3 else v + 4) for k, v in case["limits"].items()}
+    with RD.Module(built["text"]) as mod:
+        RD.call(mod, role, case["async"], built["inputs"], order=order, npos=0)
+        for k, v in new_limits.items():
+            setattr(mod.mod.AR, k, v)
+        second = RD.call(mod, role, case["async"], built["inputs"], order=order, npos=0)
+    fresh_text = built["text"].replace(prelude_for(case["limits"]), prelude_for(new_limits))
+    if fresh_text == built["text"]:
+        return
+    with RD.Module(fresh_text) as mod:
+        fresh = RD.call(mod, role, case["async"], built["inputs"], order=order, npos=0)
+    ctx.count("a_repr limits changed between two violations")
+
+    def view(e):
+        return normalise(str(e)) if type(e).__name__ == "ViolationError" else repr(type(e).__name__ if e is not None else None)
+
+    if view(second) != view(fresh):
+        fail("(5)stale-a_repr-limits", "after the limits of the contract's a_repr were changed to %r the message is\n%s\n--- "
+             "a fresh contract whose a_repr had these limits from the start gives ---\n%s" % (new_limits, view(second), view(fresh)))
 
 
 def extra_bindings(case, named, built):
